@@ -185,19 +185,19 @@ var alertDescs = []byte{0, 10, 20, 21, 22, 30, 40, 41, 42, 43, 44, 45, 46, 47, 4
 
 var alertLevels = []byte{0, 1, 2, 3, 255}
 
-// coherentResize removes the last byte of the vector behind fields[fi] (delta -1) or appends a zero byte to it
-// (delta +1) and adjusts that length and every enclosing one.
+// coherentResize changes the size of the vector behind fields[fi] by delta bytes at its end (delta < 0: the last
+// -delta bytes are removed; delta > 0: zero bytes are appended) and adjusts that length and every enclosing one.
 func coherentResize(body []byte, fields []lenField, fi, delta int) ([]byte, bool) {
 	f := fields[fi]
 	end := f.off + f.width + f.val
-	if end > len(body) || (delta < 0 && f.val == 0) {
+	if end > len(body) || delta == 0 || f.val+delta < 0 {
 		return nil, false
 	}
 	var nb []byte
 	if delta < 0 {
-		nb = append(append([]byte(nil), body[:end-1]...), body[end:]...)
+		nb = append(append([]byte(nil), body[:end+delta]...), body[end:]...)
 	} else {
-		nb = append(append(append([]byte(nil), body[:end]...), 0), body[end:]...)
+		nb = append(append(append([]byte(nil), body[:end]...), make([]byte, delta)...), body[end:]...)
 	}
 	for _, g := range fields {
 		if g.off <= f.off && g.off+g.width+g.val >= end {
